@@ -296,17 +296,20 @@ impl InterfaceVariant for SimIv {
                 w.call.busy += 1;
                 i
             });
+            // The SX127x has no BUSY line, but the driver still calls the board's `wait_on_busy` after every
+            // register access, and a board implementation of `InterfaceVariant` may fail there (a shared
+            // bus-arbitration line, a timeout wrapper): the fault is injected on both families.
+            if w.fault.map(|f| f.kind == FaultKind::Busy && f.at == i).unwrap_or(false) {
+                w.fault = None;
+                w.call.fault_fired = true;
+                w.env.clean = false;
+                w.env.bump("fault.busy");
+                w.env.tr(|| format!("busy#{i} -> FAULT"));
+                return Poll::Ready(Err(RadioError::Busy));
+            }
             match &mut w.chip {
                 Chip::C127(_) => Poll::Ready(Ok(())), // no BUSY line on the SX127x
                 Chip::C126(c) => {
-                    if w.fault.map(|f| f.kind == FaultKind::Busy && f.at == i).unwrap_or(false) {
-                        w.fault = None;
-                        w.call.fault_fired = true;
-                        w.env.clean = false;
-                        w.env.bump("fault.busy");
-                        w.env.tr(|| format!("busy#{i} -> FAULT"));
-                        return Poll::Ready(Err(RadioError::Busy));
-                    }
                     match c.busy_until(&mut w.env) {
                         Some(t) => {
                             if t > w.env.now_us {
